@@ -40,7 +40,7 @@ func ruleFeeder(w *World, r *Run) {
 	wit, logID, origin, sigv := of("Witness"), of("LogID"), of("LogOrigin"), of("LogSigVerifier")
 	notExist := mk("global", "os.ErrNotExist", 0, nil)
 	zeroI := mk("const", "0", 0, types.Typ[types.Int])
-	nUpd, nAhead, nOK, nSub := 0, 0, 0, 0
+	nUpd, nAhead, nOK, nSub, nFirst := 0, 0, 0, 0, 0
 	for _, s := range sums {
 		// the checkpoint fetched in this cycle
 		var fc *Event
@@ -152,6 +152,9 @@ func ruleFeeder(w *World, r *Run) {
 			continue
 		}
 		nUpd++
+		if !hasLatest {
+			nFirst++
+		}
 		u := upds[0]
 		// ---- C13.f: proceeding without a latest checkpoint only on nil error or 'does not exist'
 		kE, eNil, _ := nilFact(s, res(g, 1))
@@ -230,6 +233,11 @@ func ruleFeeder(w *World, r *Run) {
 			nOK++
 			r.Check(s.Rets[0] == res(u, 0) && okBefore(s, u, 0), "C13.e", fnFeedOnce+" | returns the cosigned checkpoint the witness returned", w.pos(s.RetPos), "FeedOnce's success value is "+short(s.Rets[0].String())+", not what Update returned")
 		}
+	}
+	// a witness that holds nothing for the log yet (os.ErrNotExist, no bytes) can be fed: some attempt reaches Update without a
+	// parsed latest checkpoint. Without such a path the first checkpoint of a log is never submitted.
+	if nUpd > 0 {
+		r.Check(nFirst > 0, "C13.b", fnFeedOnce+" | a witness holding nothing for the log can be fed", "", "no attempt reaches Update on a path where the witness reported no checkpoint: the empty answer is parsed (and refused) like a checkpoint, so a log the witness has never seen is never submitted")
 	}
 	if nSub == 0 || nUpd < 2 || nAhead < 1 || nOK < 1 {
 		r.Undecided("C13.b", fnFeedOnce+" | anchors", "", fmt.Sprintf("vacuity floor: %d submitting paths, %d update paths, %d ahead paths, %d success paths", nSub, nUpd, nAhead, nOK))
